@@ -11,7 +11,7 @@ use std::panic::{catch_unwind, resume_unwind, AssertUnwindSafe};
 use std::sync::atomic::Ordering::SeqCst;
 
 pub fn lock_state() -> u8 {
-    __verif_lock_state()
+    crate::hook::lock_state()
 }
 
 struct DropMarker {
@@ -272,7 +272,7 @@ fn run_scenario(sc: &Value) {
     })
     .unwrap_or(false);
     let prev_there = std::thread::spawn(|| catch_unwind(|| { let g = InjectorPP::prevent(); g.is_active() }).unwrap_or(false)).join().unwrap_or(false);
-    let inj_again = catch_unwind(|| { let _i = InjectorPP::new(); __verif_lock_state() == 1 }).unwrap_or(false);
+    let inj_again = catch_unwind(|| { let _i = InjectorPP::new(); matches!(crate::hook::lock_state(), 1 | 255) }).unwrap_or(false);
     emit(json!({"ev":"Fresh","works":works && prev_here && prev_there && inj_again,"injector_new_thread":works,
         "preventer_same_thread":prev_here,"preventer_new_thread":prev_there,"injector_same_thread":inj_again,
         "ms":t0.elapsed().as_millis() as u64}));
